@@ -227,6 +227,8 @@ class C07(Prop):
             after = after[:pos] + [again] + after[pos:]
         case = {'kind': 'cassette', 'cassette': cassette, 'prefix': rng.choice(['', 'p', 'a/b']) if cassette == 's3' else '',
                 'before': before, 'main': main, 'after': after}
+        if cassette == 's3' and rng.random() < 0.5:
+            case['sampled'] = True
         main_id = recording_id(case, main)
         unknown = ['nope', main_id + 'x', main_id[:-1], '%s/%s' % (main['category'], _hex(7)), '']
         if cassette == 's3':
@@ -272,7 +274,11 @@ class C07(Prop):
                     def today(cls):
                         return cls(2026, 1, 2, 12, 0, 0)
                 s3mod.datetime = FixedDay
-                cassette = s3mod.S3TapeCassette('verif-bucket', key_prefix=case['prefix'], read_only=False)
+                # half of the S3 cases go through storage-level sampling with a calculator that keeps everything after a draw
+                # (ratio just below 1: every draw of the cassette's seeded generator is within it): what is stored for a kept
+                # recording is what was saved
+                calc = (lambda category, size, recording: 0.999999999) if case.get('sampled') else None
+                cassette = s3mod.S3TapeCassette('verif-bucket', key_prefix=case['prefix'], read_only=False, sampling_calculator=calc)
             return self.drive(case, cassette, tmp)
         finally:
             uuid.uuid1 = real_uuid1
